@@ -65,8 +65,12 @@ def check_map(model, step, before_node, after_node, res, case, size, T0=None):
     sm = step.get_map()
     ranges = list(sm.ranges)
     tr = rm.normalize(ranges, sm.inverted)
-    T0 = T0 if T0 is not None else tk.doc_tokens(model, before_node.to_json())
-    T1 = tk.doc_tokens(model, after_node.to_json())
+    try:
+        T0 = T0 if T0 is not None else tk.doc_tokens(model, before_node.to_json())
+        T1 = tk.doc_tokens(model, after_node.to_json())
+    except Exception as e:  # noqa: BLE001  the step produced something that is not a well-formed document
+        res.violate("c03.malformed-result", case, common.exc_str(e) + " :: " + jkey(after_node.to_json())[:300], size=size)
+        return
     res.validated += 1
     delta = sum(n - o for _, o, n in tr)
     if tr:
